@@ -30,6 +30,9 @@ CLASS_SHAPE = {
 }
 
 
+NUMBER_LEXEME = re.compile(r"^-?\d+\.?\d*(?:[eE][+-]?\d+)?\Z")
+
+
 def esc(s: str) -> str:
     return s.replace("\\", "\\\\").replace('"', '\\"').replace("\n", "\\n").replace("\t", "\\t")
 
@@ -277,10 +280,24 @@ class Lenient:
             return o.w(s)
         return self.quoted(s)
 
+    def float_spelling(self, V) -> str:
+        """A float may be written in any NUMBER lexeme of the spec (42|3.14|-1e10) that denotes the same value."""
+        f = float(V["f"])
+        base = V["f"]
+        cands = {base.replace("e+", "e"), base.replace("e", "E"), base.replace("e+", "E"), "%.17e" % f, "%.1f" % f if abs(f) < 1e22 else base,
+                 ("%.17e" % f).replace("e+", "e")}
+        cands = sorted(c for c in cands if c != base and NUMBER_LEXEME.match(c) and ("." in c or "e" in c or "E" in c)
+                       and float(c) == f and (repr(float(c))[0] == "-") == (base[0] == "-"))
+        if cands and self.take("number_spelling", 0.5):
+            return self.r.choice(cands)
+        return base
+
     def atom(self, V, single=False, key=None):
         k = V["v"]
         if k == "str":
             return self.str_atom(V, single, key)
+        if k == "float":
+            return self.o.w(self.float_spelling(V))
         self.o.w({"int": lambda: V["i"], "float": lambda: V["f"], "bool": lambda: "true" if V["b"] else "false",
                   "null": lambda: "null"}[k]())
 
